@@ -9,7 +9,7 @@ rm -rf "$work"; mkdir -p "$work" "$HERE/bin"
 if [ ! -x "$HERE/bin/vinstr" ] || [ "$HERE/tools/vinstr/main.go" -nt "$HERE/bin/vinstr" ]; then
   (cd "$HERE/tools/vinstr" && "$VGO" build -o "$HERE/bin/vinstr" .) || exit 2
 fi
-PKGS="internal/j5s/sourcewalk internal/j5s/j5convert internal/j5s/j5parse internal/j5s/protobuild internal/j5s/protoprint internal/j5s/protoprint/optionreflect internal/bcl internal/bcl/internal/parser internal/bcl/internal/walker internal/bcl/internal/walker/schema internal/bcl/errpos lib/j5schema lib/j5reflect lib/patherr"
+PKGS="internal/j5s/sourcewalk internal/j5s/j5convert internal/j5s/j5parse internal/j5s/protobuild internal/j5s/protoprint internal/j5s/protoprint/optionreflect internal/bcl internal/bcl/internal/parser internal/bcl/internal/walker internal/bcl/internal/walker/schema internal/bcl/errpos lib/j5schema lib/j5reflect lib/patherr internal/source"
 VGO="$VGO" "$HERE/bin/vinstr" "$REPO" "$work" $PKGS || exit 2
 cp "$work/sites.json" "$HERE/.work/c14-sites.json"
 ov="$HERE/.work/overlay-c14.json"
